@@ -10,6 +10,10 @@ What the HED string layer says enters through the oracles of the two imported mo
 `TabularInput(file, sidecar)` assembles a table from a file and a merged sidecar enters as `Oracles.table`
 (layer `Assemble`, C06).  `check_for_warnings=False` is modelled as dropping the warnings from the issue
 list (`filterSev`; the harness checks this against the real `ErrorHandler(check_for_warnings)`).
+The text of the report is not modelled, only where it goes and which issues it is given.  In the tree as
+found the two json formats pass the issue dicts (which hold `HedTag` objects for tag-level issues) to
+`json.dumps` and end in a `TypeError` (process status 1, no report): outside this model, recorded by the
+harness, repaired by `fixes/C16_cli_json_default_str.diff`.
 No Mathlib: linked into the native driver.
 -/
 import HedVerif.Model.Bids
